@@ -76,7 +76,17 @@ def step_program(sd):
             # amend()); what counts for its result is what it reads after the announcement.
             for p in sd.get("amend_inp", []):
                 prog.append(["peek", p])
-        prog.append(["amend", amend])
+        if sd.get("amend_seq") and len(sd.get("amend_inp", [])) > 1:
+            # one announcement per input: the step can be deferred once for each of them
+            first = True
+            for p in sd["amend_inp"]:
+                part = {"inp": [p]}
+                if first:
+                    part.update({k: v for k, v in amend.items() if k != "inp"})
+                first = False
+                prog.append(["amend", part])
+        else:
+            prog.append(["amend", amend])
         for p in sd.get("amend_inp", []):
             prog.append(["read", p])
         for n in sd.get("amend_env", []):
@@ -700,3 +710,73 @@ def histories(draw, max_steps=6, min_builds=2, max_builds=4, focus=None):
 
 def spec_fingerprint(spec):
     return json.dumps(spec, sort_keys=True)
+
+
+# ---------------------------------------------------------------------------------------------
+# Feature-dense histories for the engine-level invariants (C09, C10, C15)
+
+
+def add_holds(draw, spec):
+    """Hold blocks in plans: plain, nested, never released, or followed by a failing plan."""
+    for plan in spec["plans"].values():
+        plan["items"] = [it for it in plan["items"] if it[0] not in ("hold", "release")]
+        idx = [i for i, it in enumerate(plan["items"]) if it[0] in ("step", "plan")]
+        mode = draw(st.sampled_from(["none", "none", "block", "block", "nested", "unreleased",
+                                     "fail_inside"]))
+        if not idx or mode == "none":
+            continue
+        a = draw(st.sampled_from(idx))
+        items = plan["items"]
+        if mode == "block":
+            b = draw(st.integers(a + 1, len(items)))
+            items.insert(b, ["release"])
+            items.insert(a, ["hold"])
+        elif mode == "nested":
+            b = draw(st.integers(a + 1, len(items)))
+            items.insert(b, ["release"])
+            items.insert(b, ["release"])
+            items.insert(a, ["hold"])
+            items.insert(a, ["hold"])
+        elif mode == "unreleased":
+            items.insert(a, ["hold"])
+        else:
+            items.insert(a, ["hold"])
+            items.append(["fail_plan"])
+
+
+@st.composite
+def rich_histories(draw, max_steps=6, min_builds=1, max_builds=3):
+    """Histories that mix everything the scheduler looks at: optional steps, failures, holds,
+    named resources (also undefined ones), targets, small defer caps, keep-going."""
+    focus = draw(st.sampled_from([None, None, "optional", "glob", "env"]))
+    hist = draw(histories(max_steps=max_steps, min_builds=min_builds, max_builds=max_builds,
+                          focus=focus))
+    with_holds = draw(st.booleans())
+    with_res = draw(st.booleans())
+    for k, stage in enumerate(hist["stages"]):
+        spec = stage["spec"]
+        names = active_steps(spec)
+        if names and draw(st.integers(0, 2)) == 0:
+            n = draw(st.sampled_from(names))
+            spec["steps"][n]["fail"] = draw(st.sampled_from(["early", "late"]))
+        if with_res:
+            for sd in spec["steps"].values():
+                if draw(st.booleans()):
+                    sd["resources"] = {draw(st.sampled_from(RESOURCES)): draw(st.integers(1, 2))}
+        if with_holds:
+            add_holds(draw, spec)
+        build = stage["build"]
+        if draw(st.integers(0, 3)) == 0:
+            build["defer_cap"] = draw(st.integers(1, 3))
+        if draw(st.integers(0, 3)) == 0:
+            outs = declared_outputs(spec)
+            files = sorted(p for p, (_n, role) in outs.items() if role == "out")
+            mode = draw(st.sampled_from(["files", "dirs", "mixed"]))
+            targets = []
+            if mode in ("files", "mixed") and files:
+                targets += draw(st.lists(st.sampled_from(files), min_size=1, max_size=2))
+            if mode in ("dirs", "mixed"):
+                targets += draw(st.lists(st.sampled_from(list(OUT_DIRS) + ["sub/"]),
+                                         min_size=1, max_size=2))
+            build["targets"] = sorted(set(targets))
+    return hist
